@@ -207,6 +207,20 @@ def _case(seed: int) -> Dict[str, Any]:
     if seed % 5 == 4:
         kw["p_frac_kernel_dur"] = 0.6  # whole-number timestamps, fractional durations: nothing is rounded, the parts are exact fractions
     per_rank = gen.gen_trace_set(seed, n_ranks=1 + seed % 2, **kw)
+    if seed % 3 == 1:
+        # device-side records that are neither computation nor a copy by their leading word: a synchronisation record written on the stream it waits for,
+        # a staging copy whose name has "Memcpy" in the middle (the kernel-type rule excludes both from computation)
+        k = 0
+        for evs in per_rank.values():
+            for e in evs:
+                if e.get("cat") == "kernel" and str(e.get("name", "")).startswith("void") and e.get("dur", 0) > 0:
+                    k += 1
+                    if k % 3 == 1:
+                        e["name"], e["cat"] = "Stream Sync", "cuda_sync"
+                    elif k % 3 == 2:
+                        e["name"] = "Async Memcpy PtoP staging"
+    if seed % 4 == 3:  # the analysed ranks are a subset of the job's trainers: rank ids 1 and 3, not 0..n-1 (results are keyed by rank id, not by position)
+        per_rank = {2 * rk + 1: evs for rk, evs in per_rank.items()}
     fails = []
     n = 0
     with rt.trace_dir(per_rank) as d:
